@@ -106,6 +106,19 @@ def block_type_tables(ctx, P):
                   ok, function=path, table=got)
 
 
+def header_key_line_bounded(ctx, P):
+    """The key of an armor header line ends at the first separator OF THAT LINE.  An unbounded substring search (nom take_until /
+    take_until1) for a needle such as ":\\n" runs past the end of the line: a value ending in ':' (or any later line ending in ':')
+    is then taken for the separator and the preceding text, line breaks included, becomes the key."""
+    b = ctx.body('armor::reader::key_value_pair')
+    if b is None:
+        return
+    unb = [(i, t) for i, t in b.calls(r'nom::bytes::(streaming|complete)::take_until1?$')]
+    ctx.check(P + ':S10-6:header-key-line-bounded', 'R-who', 'key_value_pair delimits the header key within the current line (no unbounded take_until search across line breaks)',
+              not unb, function=b.path, site=site(b, unb[0][0]) if unb else None,
+              missing=None if not unb else '%d take_until searches scan the whole remaining input: headers {"Comment": ["see:"]} are read back as {"Comment: see": [""]}' % len(unb))
+
+
 def header_line_separator(ctx, P):
     """Every armor header line the writer emits contains the `: ` separator: no iteration of the header loops writes anything
     while avoiding the write of the separator (RFC 9580 §6.2: `Key: Value` — the dearmorer splits lines at this separator)."""
@@ -225,6 +238,7 @@ def run(ctx):
     stream.wrapper_finishers(ctx, P)
     block_type_tables(ctx, P)
     header_line_separator(ctx, P)
+    header_key_line_bounded(ctx, P)
     stream.partial_buffer_verdicts(ctx, P)
     # tolerant reading must not panic on any armored input: the R-panic inventory of C04 restricted to the armor / base64 / line-writer modules
     from rules import c04
